@@ -294,8 +294,12 @@ func (v *collator_[V]) compareValues(first ref.Value, second ref.Value) bool {
 
 	// Handle all Go structures.
 	case ref.Struct:
-		// The Go comparison operator performs a deep comparison on structures.
-		return first.Interface() == second.Interface()
+		// Compare the corresponding fields and getter values for each structure
+		// the way they are ranked.  NOTE: The Go comparison operator cannot be
+		// used since it panics on structures that have a Go array or Go map as a
+		// field and compares pointers rather than the values they point to.
+		return v.compareStructures(first, second) &&
+			v.compareInterfaces(first, second)
 
 	default:
 		panic(fmt.Sprintf(
@@ -307,6 +311,22 @@ func (v *collator_[V]) compareValues(first ref.Value, second ref.Value) bool {
 			second.Type(),
 			second.Kind()))
 	}
+}
+
+func (v *collator_[V]) compareStructures(first ref.Value, second ref.Value) bool {
+	var count = first.NumField() // The structures are the same type.
+	for index := 0; index < count; index++ {
+		var firstField = first.Field(index)
+		var secondField = second.Field(index)
+		if firstField.CanInterface() {
+			if !v.compareValues(firstField, secondField) {
+				// Found a difference.
+				return false
+			}
+		}
+	}
+	// All fields have matching values.
+	return true
 }
 
 func (v *collator_[V]) getType(type_ ref.Type) string {
